@@ -109,9 +109,9 @@ class Representor(SchemaVisitor[str]):
 
         if schema.props.type is not Nil:
             r += "({})".format(schema.props.type.__accept__(self, indent=indent, **kwargs))
+        elif (schema.props.elements is not Nil) and (len(schema.props.elements) == 0):
+            r += "([])"
         elif schema.props.elements is not Nil:
-            if len(schema.props.elements) == 0:
-                return r + "([])"
             elems = []
             for element in schema.props.elements:
                 if is_ellipsis(element):
